@@ -745,6 +745,8 @@ type wsDriver struct {
 	staleSubReqs []uint64    // ids of eth_subscribe requests that were unanswered when their connection dropped
 	staleCalls   []uint64    // ids of calls that were unanswered when their connection dropped
 	unsubbing    map[int]int // sub handle -> call handle of its eth_unsubscribe (if one is outstanding)
+	unsubUndec   map[int]bool   // sub handle -> the script answered its eth_unsubscribe with a result that does not decode into a Go bool
+	unsubX       map[int]uint64 // sub handle -> server id named by its eth_unsubscribe frame
 	unsubbed     map[int]bool
 	subCancelled map[int]bool
 	maxID        uint64
@@ -1003,7 +1005,17 @@ func (d *wsDriver) drain(wait time.Duration) {
 			} else {
 				closed = d.isClosed(ur.s)
 			}
-			d.add(fmt.Sprintf("WUnsubRet %d %s %s", ur.s, coqBool(ur.err == nil), coqBool(closed)), fmt.Sprintf("Unsubscribe s=%d returned err=%v closed=%v", ur.s, ur.err, closed))
+			// dec: what the SCRIPT sent (never what the client returned)
+			dec := !d.unsubUndec[ur.s]
+			d.add(fmt.Sprintf("WUnsubRet %d %s %s %s", ur.s, coqBool(ur.err == nil), coqBool(closed), coqBool(dec)), fmt.Sprintf("Unsubscribe s=%d returned err=%v closed=%v (script's eth_unsubscribe result decodes into bool: %v)", ur.s, ur.err, closed, dec))
+			if !dec {
+				// referee point 4 / 5(a): Go decodes the eth_unsubscribe result into *bool; a result that does not decode
+				// makes Unsubscribe return a ParseError and leave the notifications channel open
+				d.st.Hit("ws:unsubscribe:undecodable-result")
+				if ur.err == nil {
+					d.oracle = append(d.oracle, fmt.Sprintf("Unsubscribe of subscription %d returned nil although the eth_unsubscribe result does not decode into a bool", ur.s))
+				}
+			}
 		case <-t:
 			return
 		}
@@ -1151,7 +1163,7 @@ func (d *wsDriver) unsubscribeAll(ctx context.Context) {
 	go func() { done <- d.rc.UnsubscribeAll(ctx) }()
 	finish := func(s int, withFrame bool) {
 		closed := d.waitClosed(s)
-		d.add(fmt.Sprintf("WUnsubRet %d true %s", s, coqBool(closed)), fmt.Sprintf("UnsubscribeAll: s=%d done closed=%v", s, closed))
+		d.add(fmt.Sprintf("WUnsubRet %d true %s true", s, coqBool(closed)), fmt.Sprintf("UnsubscribeAll: s=%d done closed=%v", s, closed))
 		d.unsubbed[s] = true
 		delete(d.active, s)
 		delete(d.pendSubs, s)
@@ -1181,7 +1193,8 @@ func (d *wsDriver) unsubscribeAll(ctx context.Context) {
 			k := d.nextK
 			d.nextK++
 			d.add(fmt.Sprintf("WUnsub %d %d (Some (%d, %d))", s, k, id, *x), fmt.Sprintf("UnsubscribeAll: s=%d eth_unsubscribe id=%s sub=%s", s, f.idRaw, xs))
-			frame := fmt.Sprintf(`{"jsonrpc":"2.0","id":%s,"result":true}`, fmtReqID(id))
+			// every form that decodes into a Go bool (true / false / null / no result at all)
+			frame := fmt.Sprintf(`{"jsonrpc":"2.0","id":%s%s}`, fmtReqID(id), []string{`,"result":true`, `,"result":false`, `,"result":null`, ``}[int(id)%4])
 			jlog("server sends %s", frame)
 			d.srv.send(d.conn, frame)
 			d.add(fmt.Sprintf("WFrame (FReply (Some %d) false None) []", id), "reply to eth_unsubscribe "+frame)
@@ -1271,7 +1284,7 @@ func runWSCase(r *cv.Rand, st *cv.Stats, nOps int, profile int) (string, wsDesc,
 		callRes: make(chan callRes, 256), subRes: make(chan subRes, 64), unsRes: make(chan unsubRes, 64), notifs: make(chan notifEv, 256),
 		outCalls: map[int]uint64{}, cancels: map[int]context.CancelFunc{}, pendSubs: map[int]uint64{}, subWaiting: map[int]bool{},
 		subCancel: map[int]context.CancelFunc{}, subObjs: map[int]rpcbackend.Subscription{}, uuids: map[string]int{},
-		active: map[int]uint64{}, unsubbing: map[int]int{}, unsubbed: map[int]bool{}, subCancelled: map[int]bool{},
+		active: map[int]uint64{}, unsubbing: map[int]int{}, unsubUndec: map[int]bool{}, unsubX: map[int]uint64{}, unsubbed: map[int]bool{}, subCancelled: map[int]bool{},
 		own: map[uint64]int{}, ambiguous: map[uint64]bool{}, configured: map[int]bool{}, pause: map[int]chan chan struct{}{}, stop: make(chan struct{})}
 	defer close(d.stop)
 	select {
@@ -1531,8 +1544,29 @@ func runWSCase(r *cv.Rand, st *cv.Stats, nOps int, profile int) (string, wsDesc,
 			if tk >= 0 && !iserr {
 				for _, uk := range d.unsubbing {
 					if uk == tk {
-						// eth_unsubscribe is answered with a boolean (Unsubscribe decodes into a bool)
-						resCoq, body = "None", []string{`"result":true`, `"result":false`}[r.Intn(2)]
+						// Unsubscribe decodes the result into a Go bool (waitResponse): true / false / null / absent decode,
+						// anything else is a ParseError returned by Unsubscribe, which then does not close the channel.
+						// The model's frame alphabet only knows "non-empty string" (Some v) / other (None): whether a None
+						// result decodes is the environment's choice carried by WUnsubRet's last field.
+						undec := false
+						switch uv := r.Intn(12); {
+						case uv < 4:
+							resCoq, body = "None", []string{`"result":true`, `"result":false`}[r.Intn(2)]
+						case uv < 5:
+							resCoq, body = "None", `"result":null`
+						case uv < 6:
+							resCoq, body = "None", `"jsonrpc":"2.0"`
+						case uv < 9:
+							v := uint64(700000 + step*16 + r.Intn(16))
+							resCoq, body, undec = fmt.Sprintf("(Some %d)", v), fmt.Sprintf(`"result":"%s"`, hexStr(v)), true
+						default:
+							resCoq, body, undec = "None", []string{`"result":""`, `"result":12345`, `"result":{"ok":true}`, `"result":[true]`, `"result":1`, `"result":0`}[r.Intn(6)], true
+						}
+						for us, uk2 := range d.unsubbing {
+							if uk2 == tk {
+								d.unsubUndec[us] = undec
+							}
+						}
 					}
 				}
 			}
@@ -1571,6 +1605,18 @@ func runWSCase(r *cv.Rand, st *cv.Stats, nOps int, profile int) (string, wsDesc,
 			}
 			d.sendFrame(fmt.Sprintf("(FReply %s %s %s)", fidCoq, coqBool(iserr), resCoq), "reply "+target+" "+frame, frame, false, nil)
 			d.collect(expC, expS, expU)
+			for _, us := range expU {
+				// directed: after an Unsubscribe that ended in the ParseError (channel left open) a notification for the
+				// server id it named must reach nobody (clause "to none after it is unsubscribed": the routing entry went
+				// with removeSubscription, before the eth_unsubscribe was even sent) - ownCheck decides
+				if x, ok := d.unsubX[us]; ok && d.unsubUndec[us] && d.failed == "" && !d.hangSeen {
+					x := x
+					tag := uint64(400000 + step)
+					nf := fmt.Sprintf(`{"jsonrpc":"2.0","method":"eth_subscription","params":{"subscription":"%s","result":"%s"}}`, hexStr(x), hexStr(tag))
+					d.sendFrame(fmt.Sprintf("(FNotif (Some %d) %d)", x, tag), "notification after a failed (undecodable result) Unsubscribe "+nf, nf, true, &x)
+					st.Hit("ws:notif:after-undecodable-unsubscribe")
+				}
+			}
 		case c < 58: // ---- notification
 			var xCoq, sub string
 			expect := 0
@@ -1634,6 +1680,13 @@ func runWSCase(r *cv.Rand, st *cv.Stats, nOps int, profile int) (string, wsDesc,
 				}
 				jlog("Subscribe with an unmarshallable parameter: err=%v", e)
 				st.Hit("ws:subscribe:bad-param")
+				if sub == nil && e != nil {
+					// in the model: addConfiguredSub, buildRequest fails (ESubBuildFail: before addInflightSub, no id
+					// consumed - the next request's id shows it), removeConfiguredSub, (nil, err)
+					bs := d.nextS
+					d.nextS++
+					d.add(fmt.Sprintf("WSubBuildFail %d 2", bs), fmt.Sprintf("Subscribe s=%d with an unmarshallable parameter returned (nil, err)", bs))
+				}
 				continue
 			}
 			s := d.nextS
@@ -1733,6 +1786,7 @@ func runWSCase(r *cv.Rand, st *cv.Stats, nOps int, profile int) (string, wsDesc,
 					xv = *x
 				}
 				d.outCalls[k] = id
+				d.unsubX[s] = xv
 				d.add(fmt.Sprintf("WUnsub %d %d (Some (%d, %d))", s, k, id, xv), fmt.Sprintf("Unsubscribe s=%d eth_unsubscribe id=%s sub=%s", s, f.idRaw, xs))
 				delete(d.active, s)
 				st.Hit("ws:unsubscribe:active")
@@ -2640,7 +2694,37 @@ func (p *flakyParam) MarshalJSON() ([]byte, error) {
 	return []byte(fmt.Sprintf(`"flaky-%d"`, p.tag)), nil
 }
 
-func runHookAbortHistory(st *cv.Stats, nCalls, nSubs, flakyPos int) interface{} {
+func runHookAbortHistory(st *cv.Stats, nCalls, nSubs, flakyPos int) (interface{}, string, []string) {
+	fail, coq, dops := runHookAbortHistory0(st, nCalls, nSubs, flakyPos)
+	return fail, coq, dops
+}
+
+// (the model replay of this history: WDropAbort = the hook gives up in buildRequest, before addInflightSub - event
+// ERcBuildFail; the id of the re-request on the last connection shows that the failed attempt consumed no id)
+func runHookAbortHistory0(st *cv.Stats, nCalls, nSubs, flakyPos int) (fail interface{}, coqCase string, dops []string) {
+	var ops []string
+	addOp := func(coq, desc string) { ops = append(ops, coq); dops = append(dops, desc) }
+	res := runHookAbortHistory1(st, nCalls, nSubs, flakyPos, addOp)
+	if res == nil && len(ops) > 0 && ops[len(ops)-1] != "INCOMPLETE" {
+		coqCase = fmt.Sprintf("CWs [%s]", strings.Join(ops, "; "))
+	} else {
+		dops = nil
+	}
+	return res, coqCase, dops
+}
+
+func runHookAbortHistory1(st *cv.Stats, nCalls, nSubs, flakyPos int, addOp func(coq, desc string)) interface{} {
+	addOp("INCOMPLETE", "")
+	opsDone := false
+	var pendingOps [][2]string
+	op := func(coq, desc string) { pendingOps = append(pendingOps, [2]string{coq, desc}) }
+	defer func() {
+		if opsDone && nSubs == 1 {
+			for _, o := range pendingOps {
+				addOp(o[0], o[1])
+			}
+		}
+	}()
 	st.Hit(fmt.Sprintf("ws:directed:reconnect-hook-fails:calls=%d:subs=%d", nCalls, nSubs))
 	srv := newWSServer()
 	defer srv.srv.Close()
@@ -2683,6 +2767,11 @@ func runHookAbortHistory(st *cv.Stats, nCalls, nSubs, flakyPos int) interface{} 
 			return nil
 		}
 		srv.send(conn, fmt.Sprintf(`{"jsonrpc":"2.0","id":%s,"result":"%s"}`, f.idRaw, hexStr(uint64(0xd00+i))))
+		if sid, okID := parseReqID(f.idRaw); okID {
+			op(fmt.Sprintf("WSub %d %d", i, sid), "Subscribe "+string(f.idRaw))
+			op(fmt.Sprintf("WFrame (FReply (Some %d) false (Some %d)) []", sid, 0xd00+i), "confirmation")
+			op(fmt.Sprintf("WSubRet %d 0", i), "Subscribe returned")
+		}
 		select {
 		case e := <-done:
 			if e != nil {
@@ -2708,6 +2797,9 @@ func runHookAbortHistory(st *cv.Stats, nCalls, nSubs, flakyPos int) interface{} 
 		if !ok || f.method != "verif_call" {
 			return nil
 		}
+		if cid, okID := parseReqID(f.idRaw); okID {
+			op(fmt.Sprintf("WCall %d %d", 100+k, cid), "CallRPC "+string(f.idRaw))
+		}
 	}
 	say("%d calls outstanding (the server has their frames and does not answer)", nCalls)
 	atomic.StoreInt32(&flaky.failNext, 1)
@@ -2715,6 +2807,7 @@ func runHookAbortHistory(st *cv.Stats, nCalls, nSubs, flakyPos int) interface{} 
 	say("server closes the connection; the next resubscribe of subscription %d will fail once", flakyPos)
 	// connection 2 (hook fails), connection 3 (hook succeeds: nSubs eth_subscribe frames on it)
 	last, seen := -1, 0
+	var lastSubReq json.RawMessage
 	deadline := time.After(longWait)
 settle:
 	for {
@@ -2725,6 +2818,7 @@ settle:
 		case f := <-srv.frames:
 			if f.method == "eth_subscribe" && f.conn == last {
 				seen++
+				lastSubReq = f.idRaw
 			}
 			if seen == nSubs && last >= conn+2 {
 				break settle
@@ -2757,6 +2851,16 @@ collect:
 		}
 	}
 	if len(got) == nCalls && len(noErr) == 0 {
+		if rid, okID := parseReqID(lastSubReq); okID && last == conn+2 {
+			// exactly one failed hook run (connection 2), then the successful one (connection 3)
+			op(fmt.Sprintf("WDropAbort [] %d", flakyPos), "connection dropped; the reconnect hook failed all calls and gave up building the re-request (no id consumed)")
+			for k := 0; k < nCalls; k++ {
+				op(fmt.Sprintf("WCallRet %d OErrInternal", 100+k), "call returned the reconnect error")
+			}
+			op(fmt.Sprintf("WDrop [(%d%%nat, %d)]", flakyPos, rid), "next connection: the hook re-requested the subscription with id "+string(lastSubReq))
+			opsDone = true
+			st.Hit("ws:directed:reconnect-hook-fails:replayed-in-model")
+		}
 		return nil
 	}
 	missing := []int{}
@@ -2984,8 +3088,12 @@ func main() {
 	}
 	for _, hp := range hookPlans {
 		jlog("=== WebSocket: the reconnect hook fails once (%d calls outstanding, %d subscriptions)", hp[0], hp[1])
-		if f := runHookAbortHistory(st, hp[0], hp[1], hp[2]); f != nil {
+		f, hcoq, hdops := runHookAbortHistory(st, hp[0], hp[1], hp[2])
+		if f != nil {
 			fails = append(fails, f)
+		}
+		if hcoq != "" {
+			addCase(hcoq, wsDesc{Kind: "ws", Ops: hdops})
 		}
 	}
 	jlog("=== WebSocket: the connection is reset while handleReconnect is resubscribing")
